@@ -32,6 +32,9 @@ S_BAD = {"type": "record", "name": "ns.Broken", "fields": [{"name": "ok", "type"
 S_COLOR2 = {"type": "record", "name": "ns.UsesColor", "fields": [{"name": "c", "type": {"type": "enum", "name": "Color", "symbols": ["X", "Y"]}}]}
 S_DEC5 = {"type": "bytes", "logicalType": "decimal", "precision": 5, "scale": 2}
 S_DEC20 = {"type": "bytes", "logicalType": "decimal", "precision": 20, "scale": 2}
+S_DEC_NOSCALE = {"type": "record", "name": "ns.Money", "fields": [{"name": "amounts", "type": {"type": "array", "items": {"type": "bytes", "logicalType": "decimal", "precision": 6}}}]}
+S_READER_ALIAS = {"type": "record", "name": "ns.Happening", "aliases": "ns.Event", "fields": [{"name": "id", "type": "long"},
+                  {"name": "pt", "aliases": ["p"], "type": {"type": "record", "name": "Spot", "aliases": "Point", "fields": [{"name": "x", "type": "int"}]}}]}
 S_READER = {"type": "record", "name": "ns.Event", "fields": [{"name": "id", "type": "long"}, {"name": "extra", "type": "string", "default": "dflt"},
                                                             {"name": "m", "type": {"type": "map", "values": "long"}, "default": {"d": 4}},
                                                             {"name": "deep", "type": {"type": "map", "values": {"type": "array", "items": "int"}},
@@ -203,6 +206,19 @@ def build_calls(tmpdir):
                                                                               {"type": "enum", "name": "E", "symbols": ["S"]}]}]}
     add("override_alternating_readers", lambda: {"s1": copy.deepcopy(U1), "r1": [{"u": {"x": 1}}, {"u": "S"}, {"u": None}],
                                                  "s2": copy.deepcopy(U2), "r2": [{"u": ("ns.B", {"x": 2})}, {"u": {"x": 3}}], "rounds": 25}, override_alternating)
+    def dec_noscale(fa, a, sh):
+        data = _sl(fa, a["schema"], a["value"])
+        return [fa.schemaless_reader(io.BytesIO(data), a["schema"]), canon(fa, a["schema"])]
+    add("decimal_without_scale", lambda: {"schema": copy.deepcopy(S_DEC_NOSCALE), "value": {"amounts": [decimal.Decimal("12"), decimal.Decimal("-7")]}}, dec_noscale)
+
+    def resolve_alias(fa, a, sh):
+        # a parsed reader schema the application keeps (bare-string aliases), used for resolution and then written with
+        pr = sh.setdefault("PRA", fa.parse_schema(a["r"]))
+        out = fa.schemaless_reader(io.BytesIO(_sl(fa, a["w"], copy.deepcopy(D_A1))), a["w"], pr)
+        fo = io.BytesIO()
+        fa.writer(fo, pr, [{"id": 1, "pt": {"x": 2}}], sync_marker=b"0123456789abcdef")
+        return {"read": out, "file": fo.getvalue()}
+    add("resolve_with_kept_alias_reader", lambda: {"w": copy.deepcopy(S_A1), "r": copy.deepcopy(S_READER_ALIAS)}, resolve_alias)
     add("decimal_p5", lambda: {"schema": copy.deepcopy(S_DEC5), "value": decimal.Decimal("123.45")}, dec)
     add("decimal_p20", lambda: {"schema": copy.deepcopy(S_DEC20), "value": decimal.Decimal("123456789012345678.91")}, dec)
 
